@@ -590,6 +590,7 @@ class _GroupByState(Generic[R, T_co]):
         self._iterator = iterator
         self._key_func = key_func
         self._current_value = self._sentinel
+        self.current_group: "Optional[_Grouper[R, T_co]]" = None
 
     async def step(self) -> None:
         # can raise StopAsyncIteration
